@@ -3,8 +3,11 @@ from __future__ import annotations
 
 import datetime
 import itertools
+import json
 import os
 import re
+import subprocess
+import sys
 
 import numpy as np
 import xarray as xr
@@ -25,7 +28,7 @@ RULE = (
     "-09:30, +08:00, +05:45): ems.to_netcdf then reopen gives the same convention, equal polygons, "
     "bitwise equal variables, equal time instants, and the raw file carries _FillValue exactly on the "
     "variables that had one.  Non-trivial: negative, single-digit-hour or fractional-hour offsets."
-    ' Also: integer time encodings whose unit does not divide the time steps.'
+    ' Also: integer time encodings whose unit does not divide the time steps; the unit strings again in child interpreters whose local time zone (TZ) is AEST-10, GMT0BST with summer time, PST8PDT; datasets with a scalar forecast reference time next to the time axis.'
 )
 LEVEL_TEXT = ("every (period, epoch, 15-minute UTC offset, spelling) combination of the stated product through "
               "format_time_units_for_ems, with an independent parser and cftime as consumer; save/reopen round trips "
@@ -76,12 +79,19 @@ def cases(tier):
     periods = PERIODS if tier == 'thorough' else ('days', 'seconds')
     epochs = EPOCHS if tier == 'thorough' else EPOCHS[:4]
     out = [{'part': 'units', 'period': p, 'epoch': list(e)} for p in periods for e in epochs]
+    # the same strings in interpreters whose local time zone is not UTC (fixed offset, and one with summer time)
+    for tz in ('AEST-10', 'GMT0BST,M3.5.0/1,M10.5.0', 'PST8PDT'):
+        for p in periods[:1]:
+            for e in (EPOCHS[0], EPOCHS[6]):
+                out.append({'part': 'units', 'period': p, 'epoch': list(e), 'tz': tz})
     for spec in file_specs(tier):
         for regime in ('memory', 'file'):
             for units in FILE_UNITS:
                 out.append({'part': 'file', 'spec': spec, 'regime': regime, 'units': units})
             for units in (FILE_UNITS[0], FILE_UNITS[1]):
                 out.append({'part': 'file', 'spec': spec, 'regime': regime, 'units': units, 'time_dtype': 'int32'})
+            # a second, smaller datetime variable next to the time axis (a forecast reference time)
+            out.append({'part': 'file', 'spec': spec, 'regime': regime, 'units': FILE_UNITS[0], 'reference_time': True})
     return out
 
 
@@ -178,6 +188,9 @@ def run_file(case, rec):
         ds[truth.time_name].encoding['units'] = case['units']
         # 'int32': six-hourly data requested as whole days etc.: xarray re-expresses the units when writing
         ds[truth.time_name].encoding['dtype'] = np.dtype(case.get('time_dtype', 'float64'))
+        if case.get('reference_time'):
+            ds['forecast_reference_time'] = xr.DataArray(np.datetime64('2021-11-10T12:00:00', 'ns'), attrs={'long_name': 'reference time'})
+            ds['forecast_reference_time'].encoding.update({'units': 'hours since 2021-01-01 00:00:00', 'dtype': np.dtype('float64')})
         if case['regime'] == 'file':
             ds = builders.reopen(ds, tmp, 'source.nc')
         want_fill = fill_expectation(ds)
@@ -241,7 +254,38 @@ def run_file(case, rec):
     rec.outcome([spec['family'], case['regime'], case['units']])
 
 
+def run_in_time_zone(case, rec):
+    """Run a units case in a fresh interpreter whose TZ is set, and merge its verdicts."""
+    child_env = dict(os.environ)
+    child_env['TZ'] = case['tz']
+    child_env['VERIF_C17_CHILD'] = '1'
+    child_env['PYTHONPATH'] = env.VERIF
+    proc = subprocess.run([sys.executable, '-m', 'mc.checks.c17'], input=json.dumps(case), capture_output=True, text=True,
+                          env=child_env, cwd=env.VERIF, timeout=900)
+    if proc.returncode != 0:
+        raise RuntimeError(f"C17 child failed: {proc.stderr[-2000:]}")
+    result = json.loads(proc.stdout.strip().splitlines()[-1])
+    rec.transitions += result['transitions']
+    for v in result['violations']:
+        v = dict(v)
+        v['fingerprint'] += '/local-time-zone'
+        v['what'] += f" [process time zone {case['tz']}]"
+        rec.violations.append(v)
+    rec.nontrivial(('tz', case['tz']))
+    rec.outcome(['units-tz', case['tz'], case['epoch']])
+
+
 def run_case(case):
     rec = Recorder()
+    if case.get('tz') and not os.environ.get('VERIF_C17_CHILD'):
+        run_in_time_zone(case, rec)
+        return rec.result()
     {'units': run_units, 'file': run_file}[case['part']](case, rec)
     return rec.result()
+
+
+if __name__ == '__main__':
+    import time
+    time.tzset()
+    env.import_emsarray()
+    print(json.dumps(run_case(json.loads(sys.stdin.read())), default=repr))
